@@ -1,5 +1,6 @@
 import GenjaxVerif.Lemmas.GFIWeights
 import GenjaxVerif.Lemmas.GFIStaticReq
+import GenjaxVerif.Lemmas.GFIIdentity
 import GenjaxVerif.Props.GFITest
 /-!
 # C38 — derived GFI methods and request combinators agree with the primitives
@@ -97,6 +98,27 @@ theorem C38_static_request_static_only (ds : DistSem) (p : Prog) (k : KeyPath) (
     (a : Val) (ch : Bool) (r : Res) (h : staticRequest ds p k t req a ch = .ok r) : ∃ b, p = .static b := by
   cases p <;> simp [staticRequest] at h
   exact ⟨_, rfl⟩
+
+/-- The empty `Update` of a trace — one produced by ANY operation on `p` — with that trace's own
+    arguments returns the same trace, weight 0 and an empty backward request (provided no switch is
+    re-simulated: `Safe`).  Hence re-executing with every argument tagged UnknownChange and taking the
+    NoChange shortcut give the same result on unchanged arguments. -/
+theorem C38_empty_update_is_identity (ds : DistSem) (m : Mode) (p : Prog) (i : In) (r : Res)
+    (h : run ds m p i = .ok r) (k : KeyPath) (ch : Bool) (hs : Safe ch p) :
+    update ds p k r.tr [] i.args ch = .ok ⟨r.tr, 0, [], true⟩ :=
+  upd_id ds m p i r h { c := [], sel := .none, old := some r.tr, key := k, args := i.args, changed := ch } rfl rfl rfl hs
+
+/-- Non-vacuity (a test): the hypotheses are met by a concrete program and simulated trace. -/
+example : run Test.ds .sim Test.prog1 Test.in1 = .ok ⟨Test.trace1, 0, [], true⟩ ∧ Safe false Test.prog1 :=
+  ⟨rfl, by simp [Test.prog1, Safe, SafeBody]⟩
+
+/-- `EmptyRequest`'s two arms agree where both apply: on unchanged arguments, the identity arm
+    (arguments tagged NoChange) and the `Update(empty)` arm (tagged UnknownChange) return the same. -/
+theorem C38_empty_request_arms_agree (ds : DistSem) (m : Mode) (p : Prog) (i : In) (r : Res)
+    (h : run ds m p i = .ok r) (k : KeyPath) (ch : Bool) (hs : Safe ch p) :
+    emptyRequest ds p k r.tr i.args false ch = emptyRequest ds p k r.tr i.args true ch := by
+  simp only [emptyRequest, if_true, Bool.false_eq_true, if_false]
+  exact C38_empty_update_is_identity ds m p i r h k ch hs
 
 /-- `DiffAnnotate` with identity maps is its inner request. -/
 theorem C38_diff_annotate_identity (edit : Val → Except Err Res) (a : Val) : diffAnnotate id id edit a = edit a := by
